@@ -622,6 +622,28 @@ func (fr *Frame) enterLoop(li *loopInfo, b *ssa.BasicBlock, ins []edge, cur *Sta
 		fr.assumeAlive(st, pc, fr.regs[phi])
 	}
 	// 4. assume the invariants
+	// A source name without a phi at the header that is (re)bound to a value computed inside the loop
+	// (debug info) denotes, at the header, a value of some earlier iteration: it is unknown here, not the
+	// value bound before the loop.
+	fr.staleDbg = map[string]Val{}
+	for _, blk := range blocks {
+		for _, instr := range blk.Instrs {
+			d, ok := instr.(*ssa.DebugRef)
+			if !ok || d.IsAddr {
+				continue
+			}
+			obj, ok := d.Object().(*types.Var)
+			if !ok {
+				continue
+			}
+			if di, ok := d.X.(ssa.Instruction); ok && di.Block() != nil && li.body[di.Block()] {
+				if _, done := fr.staleDbg[obj.Name()]; !done {
+					fr.staleDbg[obj.Name()] = vc.freshVal("stale_"+obj.Name(), d.X.Type())
+				}
+			}
+		}
+	}
+	defer func() { fr.staleDbg = nil }()
 	for _, c := range li.invs {
 		env := fr.contractEnv(st, pc)
 		g, err := env.evalBool(c.Expr)
